@@ -125,6 +125,10 @@ def gen_store_op(rng, prof, npids, ncontents, pid=None, focus=None, store_algo=N
                 op["short"] = rng.choice([0, 1, 2, 3, 4])
     else:
         op["kind"] = rng.choice(["str", "path"])
+    if rng.random() < 0.04:
+        op["kind"] = "missing"
+        op.pop("off", None)
+        op.pop("short", None)
     want_algo = prof in ("C02",) or rng.random() < 0.25
     want_val = prof in ("C06", "C19") or rng.random() < 0.25
     if want_algo and rng.random() < 0.8:
@@ -236,6 +240,8 @@ def gen_seq_program(seed, prof, tier="quick", mp=None, length=None):
                 op["short"] = rng.choice([0, 1, 3])
             if op["fmt"] is None and rng.random() < 0.3:
                 op["explicit_none"] = True
+            if rng.random() < 0.05:
+                op["kind"] = "missing"
             ops.append(op)
         elif k == "rmeta":
             ops.append({"op": "rmeta", "pid": rng.randrange(npids),
